@@ -5,7 +5,7 @@ import json, os, sys, time, glob
 from common import *
 from trace_props import *
 
-C11_CLAUSES = {'value_dropped_twice', 'published_value_dropped_while_vector_alive', 'published_value_leaked',
+C11_CLAUSES = {'memory_still_held_after_the_vector_was_dropped', 'value_dropped_twice', 'published_value_dropped_while_vector_alive', 'published_value_leaked',
                'vector_dropped_unpublished_value', 'value_leaked_or_invented'}
 
 
